@@ -25,6 +25,8 @@ type Case struct {
 	Op   string       `json:"op,omitempty"`
 	P    ml.Params    `json:"p"`
 	Law  string       `json:"law,omitempty"`
+	// Op "weld-far": two triangles an exact power of two of rounding cells apart (weldfar.go)
+	WeldFar *WeldFar `json:"weld_far,omitempty"`
 }
 
 const (
@@ -183,6 +185,8 @@ func run(c *core.Ctx) {
 	}
 	// size ladder: vertex / primitive counts around every power of two (thresholds a change may
 	// introduce — a bucket table, a chunked loop, a 16-bit id — lie far above S_mesh)
+	k.weldFar()
+	k.indexEdits()
 	k.ladder()
 	if c.Expired() {
 		return
@@ -233,6 +237,10 @@ func replay(c *core.Ctx) {
 		return
 	}
 	k := checker{c: c, noted: map[string]bool{}}
+	if cs.WeldFar != nil {
+		k.weldFarCase(*cs.WeldFar)
+		return
+	}
 	sh := ml.ShapeOfSpec(cs.Spec)
 	if cs.Law != "" {
 		k.law(cs.Spec, sh, cs.Law)
